@@ -52,6 +52,7 @@ replay = st.fixed_dictionaries({
     "target": st.sampled_from(["client", "server"]),
     "which": st.floats(0, 1),           # position in the list of datagrams already delivered to the target (0 = oldest)
     "recent": st.booleans(),            # pick among the 40 most recent instead
+    "lag": st.sampled_from([None, None, 0, 1, 31, 32, 33, 34, 35, 64, 255, 256, 257, 300]),   # pick the copy exactly this many datagrams behind the target's newest
     "via": st.sampled_from(["direct", "direct", "loop"]),
 })
 
@@ -144,14 +145,22 @@ def body(ctx, c):
                 pool = delivered_to(w, ch, target)
                 if not pool:
                     continue
-                if r["recent"]:
-                    pool = pool[-40:]
-                em = pool[min(int(r["which"] * len(pool)), len(pool) - 1)]
+                em = None
+                if r.get("lag") is not None and int(conn.bitfield_pkt.current_seqnum):
+                    want = int(conn.bitfield_pkt.current_seqnum - r["lag"]) if r["lag"] else int(conn.bitfield_pkt.current_seqnum)
+                    for cand in reversed(pool):
+                        if W.parse_header(cand.data).seq == want:
+                            em = cand
+                            break
+                if em is None:
+                    if r["recent"]:
+                        pool = pool[-40:]
+                    em = pool[min(int(r["which"] * len(pool)), len(pool) - 1)]
                 hdr0 = W.parse_header(em.data)
                 lag = int(conn.bitfield_pkt.current_seqnum.diff(W.SeqNum(hdr0.seq))) if int(conn.bitfield_pkt.current_seqnum) else 0
                 n_replays += 1
                 ctx.evaluations += 1
-                bucket = "lag<=32" if lag <= 32 else "lag33-256" if lag <= 256 else "lag>256"
+                bucket = "lag<=31" if lag <= 31 else "lag=32" if lag == 32 else "lag=33" if lag == 33 else "lag34-256" if lag <= 256 else "lag>256"
                 ctx.label("replay-" + bucket)
                 if lag > 32:
                     flags.add(("replay", bucket))
